@@ -2,6 +2,7 @@ package main
 
 import (
 	"fmt"
+	"os"
 	"strings"
 
 	"golang.org/x/tools/go/ssa"
@@ -34,6 +35,15 @@ func dumpFuncs(rel string, names []string) {
 				fmt.Println("SLICE ", abbr(exprStr(sl, shapeOpts)))
 			}
 		})
+		if os.Getenv("JAMVERIF_ROBUST") != "" {
+			for _, a := range condAtoms(f, robustOpts) {
+				fmt.Println("ATOM  ", abbr(a))
+			}
+			for _, a := range robustCalls(f, robustOpts, nil) {
+				fmt.Println("RCALL ", abbr(a))
+			}
+			dumpShapes("RRET", abbrMap(returnShapesO(f, robustOpts)))
+		}
 		if extraDump != nil {
 			extraDump(c, f)
 		}
